@@ -363,6 +363,15 @@ class dictable(Dict):
         for k, v in other.items():
             self[k] = v
     
+    def __ior__(self, other): ## d |= other and d.setdefault(key, value) assign columns too: through __setitem__, so that lengths are checked and scalars broadcast
+        self.update(other)
+        return self
+
+    def setdefault(self, key, default = None):
+        if key not in self:
+            self[key] = default
+        return self[key]
+
     def __setitem__(self, key, value):
         n = len(self)
         value = _value(value)
